@@ -59,6 +59,7 @@ func (hp *HTTPProxy) errorResponse(req *http.Request, err error) *http.Response 
 		handleProhibitedError,
 		handleContextCancelationError,
 		handleStatusText,
+		handleTimeoutError,
 	}
 
 	var (
@@ -264,6 +265,19 @@ func handleStatusText(req *http.Request, err error) (code int, msg, label string
 				return i, err.Error(), "https_status_text"
 			}
 		}
+	}
+
+	return
+}
+
+// handleTimeoutError handles time-outs that are not reported as *net.OpError, e.g. context.DeadlineExceeded
+// when an upstream proxy does not reply to CONNECT in time, or the TLS handshake timeout of http.Transport.
+func handleTimeoutError(req *http.Request, err error) (code int, msg, label string) {
+	var netErr net.Error
+	if errors.As(err, &netErr) && netErr.Timeout() {
+		code = http.StatusGatewayTimeout
+		msg = fmt.Sprintf("timed out connecting to remote host %q", req.Host)
+		label = "timeout"
 	}
 
 	return
